@@ -5,7 +5,7 @@
 P=$(readlink -f $1); shift
 mkdir -p /tmp/wt; WT=/tmp/wt/run_$$; OUTD=/tmp/wt/out_$$
 git -C /repo worktree add -q --detach $WT HEAD || exit 2
-git -C $WT apply $P || { echo "PATCH DOES NOT APPLY"; git -C /repo worktree remove --force $WT; exit 2; }
+git -C $WT apply --whitespace=nowarn $P 2>&1 | grep -v "^warning\|trailing whitespace" ; [ ${PIPESTATUS[0]} -eq 0 ] || { echo "PATCH DOES NOT APPLY"; git -C /repo worktree remove --force $WT; exit 2; }
 cd "$(dirname "$0")/.."
 for c in "$@"; do
   STOCKPYL_REPO=$WT VERIF_OUT=$OUTD ./check $c 2>&1 | grep -v conda | grep -E "^VIOLATION|^KNOWN|quick:|thorough:|INFRA|^  [a-zA-Z_() -]+:" | cut -c1-400
